@@ -70,7 +70,11 @@ func c10Tables() []c10Table {
 		}},
 		{"hostile texts", func(t tabular.Table) { t.AddHeaders(`a"b`, "c|d"); t.AddRowItems("<x>", "q,r"); t.AddRowItems(nil, 5) }},
 		{"empty table", func(t tabular.Table) {}},
-		{"json fails half-way", func(t tabular.Table) { t.AddHeaders("h1", "h2"); t.AddRowItems("fine", 1); t.AddRowItems("bad", unencodable{}) }},
+		{"json fails half-way", func(t tabular.Table) {
+			t.AddHeaders("h1", "h2")
+			t.AddRowItems("fine", 1)
+			t.AddRowItems("bad", unencodable{})
+		}},
 		{"header shorter than rows", func(t tabular.Table) { t.AddHeaders("h1"); t.AddRowItems("a", "b") }},
 		{"detached row", func(t tabular.Table) {
 			t.AddHeaders("h1", "h2")
